@@ -5,7 +5,8 @@ void PolarGrid::RadialAnisotropicDivision(std::vector<double>& r_temp, const dou
                                           const int anisotropic_factor) const
 {
     // Calculate the percentage of refinement_radius.
-    const double percentage = (refinement_radius - R0) / (R - R0);
+    // A refinement radius outside [R0, R] refines next to the nearest boundary.
+    const double percentage = std::min(1.0, std::max(0.0, (refinement_radius - R0) / (R - R0)));
     assert(percentage >= 0.0 && percentage <= 1.0);
 
     // 1) uniform division with nr=2^dummy_lognr - 2^aniso
@@ -37,12 +38,15 @@ void PolarGrid::RadialAnisotropicDivision(std::vector<double>& r_temp, const dou
     int se;
 
     // Added by Allan Kuhn to fix a memory error
-    if (floor(nr * percentage) > nr - (n_elems_refined / 2)) {
-        int new_aniso   = log2(nr - floor(nr * percentage)) + 1;
+    // Node around which the division is refined: a valid node index of the uniform division.
+    const int center = std::min(nr - 1, std::max(0, static_cast<int>(floor(nr * percentage))));
+    if (center > nr - (n_elems_refined / 2)) {
+        int new_aniso   = log2(nr - center) + 1;
         n_elems_refined = pow(2, new_aniso);
     }
 
-    se     = floor(nr * percentage) - n_elems_refined / 2;
+    // Keep the refinement window [se, se + n_elems_refined) inside the uniform division.
+    se     = std::min(std::max(center - n_elems_refined / 2, 0), nr - n_elems_refined);
     int ee = se + n_elems_refined;
     // takeout
     int st = ceil((double)n_elems_refined / 4.0 + 1) - 1;
@@ -77,7 +81,7 @@ void PolarGrid::RadialAnisotropicDivision(std::vector<double>& r_temp, const dou
     // such that the total size is 8*x+1 (or we do not refine)
     nr        = nr + r_set.size();
     int shift = 0;
-    shift     = std::min(nr % 8 - 1, (int)r_set.size());
+    shift     = std::max(0, std::min(nr % 8 - 1, (int)r_set.size()));
     itr       = r_set.begin();
     std::advance(itr, shift);
     r_set.erase(r_set.begin(), itr);
